@@ -429,4 +429,276 @@ theorem splitUriSub_eq (proxy : Bool) (s : Bytes) (hu : unixAuthority s = false)
                 | some pq => rfl
 
 
+/-! ### the buffer accounting of coap_split_path / coap_split_query -/
+
+theorem usedBy_append (segs : List Bytes) (d : Bytes) : usedBy (segs ++ [d]) = usedBy segs + optSize d := by
+  simp [usedBy, List.sum_append]
+
+theorem usedBy_cons (d : Bytes) (segs : List Bytes) : usedBy (d :: segs) = optSize d + usedBy segs := by
+  simp [usedBy]
+
+theorem usedBy_dropLast_le (segs : List Bytes) : usedBy segs.dropLast ≤ usedBy segs := by
+  induction segs with
+  | nil => simp
+  | cons a r ih =>
+    cases r with
+    | nil => simp [usedBy]
+    | cons b r' =>
+      rw [List.dropLast_cons_cons, usedBy_cons, usedBy_cons]
+      omega
+
+theorem pctDecode_length_le (n : Nat) : ∀ (s d : Bytes), s.length ≤ n → pctDecode s = some d → d.length ≤ s.length := by
+  induction n with
+  | zero =>
+    intro s d hn h
+    have : s = [] := List.eq_nil_of_length_eq_zero (by omega)
+    subst this
+    simp [pctDecode] at h; subst h; simp
+  | succ n ih =>
+    intro s d hn h
+    cases s with
+    | nil => simp [pctDecode] at h; subst h; simp
+    | cons c r =>
+      rcases pctDecode_cons_inv _ _ _ h with ⟨_, t, ht, hd⟩ | ⟨_, a, b, r', x, y, t, hr, _, _, ht, hd⟩
+      · have := ih r t (by simp at hn; omega) ht
+        subst hd; simp; omega
+      · subst hr
+        have := ih r' t (by simp at hn; omega) ht
+        subst hd; simp; omega
+
+theorem optSize_le (d : Bytes) : optSize d ≤ d.length + 3 := by
+  unfold optSize; split <;> (try split) <;> omega
+
+theorem optHdr_fits (room len : Nat) (h : (if len < 13 then 1 else if len < 269 then 2 else 3) + len ≤ room) :
+    ¬ (room = 0) ∧ ¬ (optHdr room len = 0) ∧ ¬ (room - optHdr room len < len) := by
+  unfold optHdr
+  by_cases h1 : len < 13
+  · simp only [h1, if_true] at h ⊢
+    have h0 : ¬ room = 0 := by omega
+    simp only [h0, if_false]
+    exact ⟨fun f => f, by omega, by omega⟩
+  · by_cases h2 : len < 269
+    · simp only [h1, h2, if_true, if_false] at h ⊢
+      have h0 : ¬ room = 0 := by omega
+      have h3 : ¬ room < 2 := by omega
+      simp only [h0, h3, if_false]
+      exact ⟨fun f => f, by omega, by omega⟩
+    · simp only [h1, h2, if_false] at h ⊢
+      have h0 : ¬ room = 0 := by omega
+      have h3 : ¬ room < 3 := by omega
+      simp only [h0, h3, if_false]
+      exact ⟨fun f => f, by omega, by omega⟩
+
+/-- one raw segment that decodes and fits: write_option appends exactly its decoding -/
+theorem writeS_fits (seg d : Bytes) (st : Cnt) (hd : pctDecode seg = some d)
+    (hfit : usedBy st.segs + optSize d ≤ st.buflen) : writeS seg st = { st with segs := st.segs ++ [d] } := by
+  have ⟨h0, h1, h2⟩ := optHdr_fits (st.buflen - usedBy st.segs) d.length (by unfold optSize at hfit; omega)
+  unfold writeS
+  rw [hd]
+  simp only
+  rw [if_neg h0, if_neg h1, if_neg h2]
+
+/-- whatever the buffer size: a written segment fits -/
+theorem optHdr_room (room len : Nat) (h1 : ¬ (optHdr room len = 0)) (h2 : ¬ (room - optHdr room len < len)) :
+    (if len < 13 then 1 else if len < 269 then 2 else 3) + len ≤ room := by
+  unfold optHdr at h1 h2
+  by_cases g0 : room = 0
+  · simp [g0] at h1
+  · by_cases g1 : len < 13
+    · simp only [g0, g1, if_true, if_false] at h1 h2 ⊢; omega
+    · by_cases g2 : len < 269
+      · by_cases g3 : room < 2
+        · simp [g0, g1, g2, g3] at h1
+        · simp only [g0, g1, g2, g3, if_true, if_false] at h1 h2 ⊢; omega
+      · by_cases g3 : room < 3
+        · simp [g0, g1, g2, g3] at h1
+        · simp only [g0, g1, g2, g3, if_false] at h1 h2 ⊢; omega
+
+theorem writeS_inv (seg : Bytes) (st : Cnt) (h : usedBy st.segs ≤ st.buflen) :
+    usedBy (writeS seg st).segs ≤ (writeS seg st).buflen ∧ (writeS seg st).buflen = st.buflen := by
+  unfold writeS
+  by_cases h0 : st.buflen - usedBy st.segs = 0
+  · simp [h0, h]
+  · rw [if_neg h0]
+    cases pctDecode seg with
+    | none => exact ⟨h, rfl⟩
+    | some d =>
+      simp only
+      by_cases h1 : optHdr (st.buflen - usedBy st.segs) d.length = 0
+      · rw [if_pos h1]; exact ⟨h, rfl⟩
+      · rw [if_neg h1]
+        by_cases h2 : st.buflen - usedBy st.segs - optHdr (st.buflen - usedBy st.segs) d.length < d.length
+        · rw [if_pos h2]; exact ⟨h, rfl⟩
+        · rw [if_neg h2]
+          have := optHdr_room _ _ h1 h2
+          refine ⟨?_, rfl⟩
+          simp only [usedBy_append, optSize]
+          omega
+
+theorem pathStepBuf_inv (seg : Bytes) (st : Cnt) (h : usedBy st.segs ≤ st.buflen) :
+    usedBy (pathStepBuf seg st).segs ≤ (pathStepBuf seg st).buflen ∧ (pathStepBuf seg st).buflen = st.buflen := by
+  unfold pathStepBuf
+  by_cases h1 : dotKind seg = 1
+  · simp [h1, h]
+  · by_cases h2 : dotKind seg = 2
+    · simp only [h2, if_true, backupSegment]
+      exact ⟨Nat.le_trans (usedBy_dropLast_le _) h, rfl⟩
+    · simp only [h1, h2, if_false]
+      exact writeS_inv seg st h
+
+theorem fold_inv (step : Bytes → Cnt → Cnt)
+    (hstep : ∀ seg st, usedBy st.segs ≤ st.buflen → usedBy (step seg st).segs ≤ (step seg st).buflen ∧ (step seg st).buflen = st.buflen)
+    (raws : List Bytes) (st : Cnt) (h : usedBy st.segs ≤ st.buflen) :
+    usedBy (raws.foldl (fun s seg => step seg s) st).segs ≤ st.buflen := by
+  induction raws generalizing st with
+  | nil => exact h
+  | cons r rs ih =>
+    simp only [List.foldl_cons]
+    have ⟨a, b⟩ := hstep r st h
+    have := ih (step r st) a
+    rw [b] at this
+    exact this
+
+/-- with room for every decoded segment (dot segments included) nothing is ever omitted: the fold is S's resolution -/
+theorem fold_buf_path (raws ds : List Bytes) (st : Cnt) (h : decodeAll raws = some ds)
+    (hroom : usedBy st.segs + usedBy ds ≤ st.buflen) :
+    raws.foldl (fun s seg => pathStepBuf seg s) st = ⟨st.buflen, ds.foldl resolveStep st.segs⟩ := by
+  induction raws generalizing ds st with
+  | nil => simp [decodeAll] at h; subst h; rfl
+  | cons r rs ih =>
+    simp only [decodeAll] at h
+    cases hd : pctDecode r with
+    | none => simp [hd] at h
+    | some d =>
+      cases ht : decodeAll rs with
+      | none => simp [hd, ht] at h
+      | some t =>
+        simp [hd, ht] at h
+        subst h
+        rw [usedBy_cons] at hroom
+        simp only [List.foldl_cons]
+        have hstep : pathStepBuf r st = ⟨st.buflen, resolveStep st.segs d⟩ ∧
+            usedBy (resolveStep st.segs d) + usedBy t ≤ st.buflen := by
+          unfold pathStepBuf resolveStep
+          rw [dotKind_decode r d hd]
+          by_cases e1 : d = dot1
+          · constructor
+            · simp [e1]
+            · simp only [e1, if_true]; omega
+          · by_cases e2 : d = dot2
+            · have hne : dot2 ≠ dot1 := by decide
+              subst e2
+              have := usedBy_dropLast_le st.segs
+              constructor
+              · simp [hne, backupSegment]
+              · simp only [hne, if_true, if_false]; omega
+            · have h01 : ¬ ((0 : Nat) = 1) := by omega
+              have h02 : ¬ ((0 : Nat) = 2) := by omega
+              simp only [e1, e2, if_false, h01, h02]
+              rw [writeS_fits r d st hd (by omega), usedBy_append]
+              exact ⟨rfl, by omega⟩
+        rw [hstep.1]
+        exact ih t ⟨st.buflen, resolveStep st.segs d⟩ ht hstep.2
+
+theorem fold_buf_query (raws ds : List Bytes) (st : Cnt) (h : decodeAll raws = some ds)
+    (hroom : usedBy st.segs + usedBy ds ≤ st.buflen) :
+    raws.foldl (fun s seg => writeS seg s) st = ⟨st.buflen, st.segs ++ ds⟩ := by
+  induction raws generalizing ds st with
+  | nil => simp [decodeAll] at h; subst h; simp
+  | cons r rs ih =>
+    simp only [decodeAll] at h
+    cases hd : pctDecode r with
+    | none => simp [hd] at h
+    | some d =>
+      cases ht : decodeAll rs with
+      | none => simp [hd, ht] at h
+      | some t =>
+        simp [hd, ht] at h
+        subst h
+        rw [usedBy_cons] at hroom
+        simp only [List.foldl_cons]
+        rw [writeS_fits r d st hd (by omega)]
+        rw [ih t _ ht (by simp only [usedBy_append]; omega)]
+        simp
+
+
+/-- bytes of the raw segments -/
+def rawLen (raws : List Bytes) : Nat := (raws.map List.length).sum
+
+/-- the raw segments and the separators between them are disjoint parts of the input -/
+theorem splitAcc_len (stop sep : UInt8 → Bool) (q cur : Bytes) :
+    rawLen (splitAcc stop sep q cur) + (splitAcc stop sep q cur).length ≤ cur.length + q.length + 1 ∧
+    1 ≤ (splitAcc stop sep q cur).length := by
+  induction q generalizing cur with
+  | nil => simp [splitAcc, rawLen]
+  | cons c r ih =>
+    by_cases h1 : stop c = true
+    · simp [splitAcc, h1, rawLen]
+    · by_cases h2 : sep c = true
+      · have := ih []
+        simp [rawLen] at this
+        simp [splitAcc, h1, h2, rawLen]
+        omega
+      · have := ih (cur ++ [c])
+        simp only [rawLen] at this
+        simp [splitAcc, h1, h2, rawLen] at this ⊢
+        omega
+
+theorem usedBy_le_raw (raws ds : List Bytes) (h : decodeAll raws = some ds) :
+    usedBy ds ≤ rawLen raws + 3 * raws.length ∧
+    ((∀ d ∈ ds, d.length < 269) → usedBy ds ≤ rawLen raws + 2 * raws.length) := by
+  induction raws generalizing ds with
+  | nil => simp [decodeAll] at h; subst h; simp [usedBy, rawLen]
+  | cons r rs ih =>
+    simp only [decodeAll] at h
+    cases hd : pctDecode r with
+    | none => simp [hd] at h
+    | some d =>
+      cases ht : decodeAll rs with
+      | none => simp [hd, ht] at h
+      | some t =>
+        simp [hd, ht] at h
+        subst h
+        have ⟨i1, i2⟩ := ih t ht
+        have hl := pctDecode_length_le r.length r d (Nat.le_refl _) hd
+        have hr : rawLen (r :: rs) = r.length + rawLen rs := by simp [rawLen]
+        rw [usedBy_cons, hr]
+        constructor
+        · have := optSize_le d
+          simp only [List.length_cons]; omega
+        · intro hs
+          have h1 := hs d (by simp)
+          have h2 := i2 (fun x hx => hs x (by simp [hx]))
+          have : optSize d ≤ d.length + 2 := by unfold optSize; split <;> (try split) <;> omega
+          simp only [List.length_cons]; omega
+
+/-- coap_split_path with a buffer that holds all decoded segments -/
+theorem splitPathBuf_eq (input : Bytes) (buflen : Nat) (ds : List Bytes)
+    (hd : decodeAll (rawSegs pathStop pathSep input) = some ds) (hb : usedBy ds ≤ buflen) :
+    MU.splitPath input buflen = R.ok (resolve ds) := by
+  rw [splitPathBuf_fold, fold_buf_path _ ds ⟨buflen, []⟩ hd (by simpa [usedBy] using hb)]
+  rfl
+
+theorem splitQueryBuf_eq (input : Bytes) (buflen : Nat) (ds : List Bytes)
+    (hd : decodeAll (rawSegs queryStop querySep input) = some ds) (hb : usedBy ds ≤ buflen) :
+    MU.splitQuery input buflen = R.ok ds := by
+  rw [splitQueryBuf_fold, fold_buf_query _ ds ⟨buflen, []⟩ hd (by simpa [usedBy] using hb)]
+  simp
+
+/-- the two documented-minimum bounds in terms of the input -/
+theorem usedBy_le_input (stop sep : UInt8 → Bool) (input : Bytes) (ds : List Bytes)
+    (hd : decodeAll (rawSegs stop sep input) = some ds) :
+    usedBy ds ≤ input.length + 2 * (rawSegs stop sep input).length + 1 ∧
+    ((∀ d ∈ ds, d.length < 269) → usedBy ds ≤ input.length + 2 * (rawSegs stop sep input).length) := by
+  have ⟨a1, a2⟩ := usedBy_le_raw _ ds hd
+  have ⟨b1, b2⟩ := splitAcc_len stop sep input []
+  simp only [List.length_nil, Nat.zero_add] at b1
+  unfold rawSegs at *
+  constructor
+  · omega
+  · intro hs
+    have := a2 hs
+    omega
+
+
 end Coap.UriL
